@@ -36,7 +36,9 @@ fn eq(a: &Raw, b: &Raw) -> bool {
 /// role 0 unrelated runnable, 1 blocked elsewhere, 2 waiting on this Notify
 /// (pending operation on it, Blocked -- no notification stored).
 fn world(acting: usize, notified: bool, spurious: bool, did_spur: bool) -> (crate::rt::Execution, Notify, [u8; 3], Raw) {
-    let mut e = ev::mk_exec(3, 2, None);
+    // one decision per operation, plus the spurious-wakeup decision when it can be taken
+    let cap = if spurious && !did_spur { 2 } else { 1 };
+    let mut e = ev::mk_exec(3, cap, None);
     tv::activate(&mut e.threads, acting);
     let sync: Raw = kani::any();
     let st = State { spurious, did_spur, seq_cst: kani::any(), notified, last_access: None, synchronize: sv::mk(sync) };
@@ -81,7 +83,7 @@ vharness! {
     #[cfg_attr(kani, kani::unwind(8))]
     fn notify_wakes_waiters_t1() {
         let acting = 1;
-        let (mut e, n, roles, sync) = world(acting, false, kani::any(), kani::any());
+        let (mut e, n, roles, sync) = world(acting, false, false, false);
         let c = [clock(&e, 0), clock(&e, 1), clock(&e, 2)];
         sched::enter(&mut e, || n.notify(Location::disabled()));
         let st = n.state.get(&e.objects);
